@@ -466,13 +466,37 @@ P_C07T(pre, e) ==
                 Has(pre.mkt, e.a.mid) /\ e.a.book.pt = pre.mkt[e.a.mid].pt /\ e.a.book.pt <= pre.clock, <<e.a.book.pt, pre.clock>>)
           /\ Ck("C07", "DelayCharged",
                 e.a.delay = ExpectedDelay(e.a.kind, e.a.betdelay, e.a.lat), <<e.a.kind, e.a.delay, e.a.betdelay>>))
+    \* a fill is stamped with the publish time of the book it was matched against, which is the book the order's
+    \* market shows at that moment: the state prevailing before the executing update for a fill on execution, the
+    \* update's own book for a fill while resting - never a book the clock has not reached.  (When the request was
+    \* sent while another market of the file / event was being processed, that book can be older than the request.)
+    /\ \A o \in DOMAIN post.ord :
+          LET a == post.ord[o]
+              n0 == IF Has(pre.ord, o) THEN Len(pre.ord[o].frags) ELSE 0
+          IN (Len(a.frags) > n0 /\ Has(post.mkt, a.mid)) =>
+                Ck("C07", "FillStampedWithItsBook",
+                   \A j \in (n0 + 1)..Len(a.frags) :
+                      a.frags[j][1] < 0 \/ (a.frags[j][1] = post.mkt[a.mid].pt /\ a.frags[j][1] <= post.clock),
+                   <<o, a.frags, post.mkt[a.mid].pt, post.clock>>)
     /\ \A o \in DOMAIN post.ord :
           LET a == post.ord[o] IN
           /\ Ck("C07", "NoTimestampBeforePossible",
                 /\ (a.placed >= 0 => a.placed >= a.created)
-                /\ \A j \in DOMAIN a.frags : a.frags[j][1] < 0 \/ a.frags[j][1] >= a.created
-                /\ a.supd >= a.created /\ a.supd <= post.clock /\ a.created <= post.clock,
-                <<o, a.created, a.placed, a.supd, post.clock>>)
+                \* (no timestamp lies in the future: beyond the latest time the run has reached - in a file carrying
+                \*  several markets the clock steps back to the publish time of each re-delivered book, e.hw is its
+                \*  high-water mark)
+                /\ a.supd <= e.hw /\ a.created <= e.hw
+                \* every timestamp is the simulated time at which the thing happened (and it never changes afterwards
+                \* unless the thing happens again): creation, acknowledgement, status change carry the clock of the step
+                \* in which they appear.  (With one market per file the clock only moves forward, so each follows the
+                \* creation time; the per-step form also holds where the clock steps back.)
+                \* (the order that replaces another one is dated with the replace request it results from)
+                /\ (~Has(pre.ord, o) => /\ a.created = (IF e.ev = "exec" THEN e.a.created ELSE post.clock)
+                                        /\ a.supd = post.clock /\ (a.placed >= 0 => a.placed = post.clock))
+                /\ (Has(pre.ord, o) => /\ a.created = pre.ord[o].created
+                                       /\ (a.supd # pre.ord[o].supd => a.supd = post.clock)
+                                       /\ (a.placed # pre.ord[o].placed => a.placed = post.clock)),
+                <<o, a.created, a.placed, a.supd, post.clock, e.hw, IF Has(pre.ord, o) THEN <<pre.ord[o].created, pre.ord[o].placed, pre.ord[o].supd>> ELSE <<>>>>)
           \* a pending order has no fills; an order whose request is in flight stays fillable
           /\ Ck("C07", "PendingHasNoFills", a.status = "PENDING" => a.m = 0 /\ a.frags = <<>>, o)
     \* ... as before: a lone resting order with a cancel / update / replace in flight is filled by exactly what a resting
